@@ -81,33 +81,24 @@ Ltac same_ref_tac :=
     | apply same_ref_setn; reflexivity
     | eapply same_ref_trans; [ | apply same_ref_setn; reflexivity ]; same_ref_tac ].
 
-Lemma unwind_count_other : forall p r stk cs below,
-  (forall a b c, p (FScript a b c) = false) -> (forall a b c d, p (FCacheSet a b c d) = false) ->
-  (forall a b, p (FRunEnd a b) = false) ->
-  unwind r stk = Some (cs, below) -> count p stk = count p below.
-Proof.
-  intros p r stk. induction stk as [|h t IH]; simpl; intros cs below P1 P2 P3 H; [discriminate|].
-  destruct h; try discriminate.
-  - destruct (Nat.eqb r r0); [|discriminate]. rewrite P1. simpl. eapply IH; eauto.
-  - destruct (Nat.eqb r r0); [|discriminate]. destruct (unwind r t) as [[cs' b']|] eqn:U; [|discriminate].
-    inversion H; subst. rewrite P2. simpl. eapply IH; eauto.
-  - destruct (Nat.eqb r r0); [|discriminate]. inversion H; subst. rewrite P3. reflexivity.
-Qed.
-
 Lemma do_fail_ref : forall s r stk retry s1 st sp others,
   do_fail s r stk retry = Some (s1, st, sp) ->
   s_nodes s1 = s_nodes s /\
   (forall n, count (cleanup_of n) (st ++ others ++ concat sp) = count (cleanup_of n) (stk ++ others)) /\
   (forall n, count (relpend n) (stk ++ others) <= count (relpend n) (st ++ others ++ concat sp)).
 Proof.
-  intros s r stk retry s1 st sp others H. unfold do_fail in H.
-  destruct (unwind r stk) as [[cs below]|] eqn:U; [|discriminate].
-  assert (U1 := fun n => unwind_count_other (cleanup_of n) _ _ _ _ (fun _ _ _ => eq_refl) (fun _ _ _ _ => eq_refl) (fun _ _ => eq_refl) U).
-  assert (U2 := fun n => unwind_count_other (relpend n) _ _ _ _ (fun _ _ _ => eq_refl) (fun _ _ _ _ => eq_refl) (fun _ _ => eq_refl) U).
+  intros s r stk retry s1 st sp others H.
+  destruct (do_fail_spec _ _ _ _ _ _ _ H) as [cs [ks [below [term [y [U [N [Sl [R [Y1 [Y2 [Y3 [Y4 [Y5 [Y6 [Y7 [Y8 T]]]]]]]]]]]]]]]]].
+  destruct (unwind_split _ _ _ _ _ _ U) as [d [l [E [Fd [L _]]]]].
+  assert (D1 : forall n, count (cleanup_of n) d = 0) by (intros n; apply (count_zero_forall _ unw_kind); [intros f Hf; destruct f; simpl in *; try discriminate; reflexivity | exact Fd]).
+  assert (D2 : forall n, count (relpend n) d = 0) by (intros n; apply (count_zero_forall _ unw_kind); [intros f Hf; destruct f; simpl in *; try discriminate; reflexivity | exact Fd]).
   assert (RC : forall n cs0, count (cleanup_of n) (concat (map (fun c0 => [FRelEnter c0]) cs0)) = 0).
   { intros n cs0. induction cs0 as [|h t IH]; simpl; [reflexivity | exact IH]. }
-  destruct retry; inversion H; subst; clear H; (split; [reflexivity|]); split; intros n;
-    simpl; rewrite ?count_app, ?concat_app, ?count_app, ?RC, ?U1, ?U2; simpl; lia.
+  split; [exact N|]. subst stk.
+  destruct term as [jid|]; simpl in L.
+  - subst l. destruct T as [-> [-> _]]. split; intros n; simpl; rewrite ?count_app; simpl; rewrite ?count_app, ?RC, ?D1, ?D2; simpl; lia.
+  - destruct L as [c ->]. destruct T as [-> [_ [[_ [-> _]]|[_ [-> _]]]]]; split; intros n; simpl; rewrite ?count_app; simpl;
+      rewrite ?count_app, ?concat_app, ?count_app, ?RC, ?D1, ?D2; simpl; lia.
 Qed.
 
 Lemma g_add_out_ref : forall g n to g' linked shinv shrel,
@@ -322,11 +313,14 @@ Proof.
       * unfold alloc in H; inversion H; subst; clear H; simpl.
         eapply ref_on_same; [apply same_ref_refl | | | apply ref_on_alloc; [repeat split | exact Inv]]; intros n'; cnt2.
     + destruct (Nat.eqb arg 0).
-      * destruct (cache_get (r_cache (getr s r)) key) as [child|]; [destruct (Nat.eqb child c); [discriminate|]|]; inversion H; subst; clear H; simpl; ref_leaf Inv.
+      * destruct (memb key (r_keys (getr s r))); [discriminate|]. inversion H; subst; clear H; simpl; ref_leaf Inv.
       * destruct (Nat.eqb arg 2); [inversion H; subst; clear H; simpl; ref_leaf Inv|].
         destruct (r_cancel (getr s r)); [|discriminate]. eapply Fail; eauto.
     + destruct (Nat.eqb arg 0); [inversion H; subst; clear H; simpl; ref_leaf Inv | eapply Fail; eauto].
     + destruct (Nat.eqb arg 0); [inversion H; subst; clear H; simpl; ref_leaf Inv | eapply Fail; eauto].
+    + (* OPar *)
+      inversion H; subst; clear H. simpl.
+      eapply ref_on_same; [apply same_ref_refl | | | exact Inv]; intros n'; cnt2; rewrite branch_tasks_count by reflexivity; lia.
   - (* FDepAdd *)
     destruct (do_add_out s res c) as [[s2 sp2]|] eqn:A; [|discriminate]. inversion H; subst; clear H.
     assert (K := do_add_out_ref _ _ _ _ _ _ A Inv).
@@ -354,6 +348,20 @@ Proof.
     destruct (do_add_out s child parent) as [[s2 sp2]|] eqn:A; [|discriminate]. inversion H; subst; clear H.
     assert (K := do_add_out_ref _ _ _ _ _ _ A Inv). simpl.
     eapply ref_on_same; [ | | | exact K]; [unfold getN; same_ref_tac | intros n'; cnt2 | intros n'; cnt2].
+  - (* FCacheGet *)
+    destruct (cache_get (r_cache (getr s r)) key) as [child|]; [destruct (Nat.eqb child c); [discriminate|]|];
+      inversion H; subst; clear H; simpl; ref_leaf Inv.
+  - (* FKeyUnlock *) inversion H; subst; clear H. simpl. ref_leaf Inv.
+  - (* FJoin *)
+    destruct (nth jid (s_joins s) (0, false)) as [nb failed]. destruct (Nat.eqb nb 0); [|discriminate].
+    destruct failed; [|inversion H; subst; clear H; ref_leaf Inv].
+    destruct (do_fail_ref _ _ _ _ _ _ _ others H) as [N [C1 C2]]. rewrite N.
+    eapply ref_on_same; [apply same_ref_refl | | | exact Inv].
+    + intros n'. rewrite C1. reflexivity.
+    + intros n'. specialize (C2 n'). simpl in *. lia.
+  - (* FBranchBegin *) inversion H; subst; clear H. ref_leaf Inv.
+  - (* FBranchEnd *)
+    destruct (nth jid (s_joins s) (0, false)) as [nb failed]. inversion H; subst; clear H. simpl. ref_leaf Inv.
   - (* FRunEnd *)
     inversion H; subst; clear H. simpl.
     eapply ref_on_same; [apply same_ref_refl | | | exact Inv]; intros n'; cnt2; destruct (r_comp (getr s r)); simpl; lia.
